@@ -96,7 +96,7 @@ def oracle(ck, extended):
     for a, b in (rng.sample(pairs, 12) if q else pairs):
         wa, wb = pywt.Wavelet(a), pywt.Wavelet(b)
         col = tuple(np.array(v) for v in wa.filter_bank); row = tuple(np.array(v) for v in wb.filter_bank)
-        x = gen.float_tensor(ck.nprng, (1, 1, rng.randint(max(4, wa.dec_len), 30), rng.randint(max(4, wb.dec_len), 30)))
+        x = gen.float_tensor(ck.nprng, (1, 1, rng.randint(max(4, wa.dec_len), max(4, wa.dec_len) + 26), rng.randint(max(4, wb.dec_len), max(4, wb.dec_len) + 26)))
         rt.guard(ck, oracle_axes, ck, rng.choice(gen.MODES5), rng.randint(1, 2), col, row, x, tol=1e-9, named='%s x %s' % (a, b))
 
 
